@@ -46,6 +46,8 @@ pub open spec fn felt_one() -> Felt { felt_of(1) }
 pub exec const ZERO: Felt ensures ZERO.val() == 0 { Felt { inner: 0 } }
 #[verifier::external_body]
 pub exec const ONE: Felt ensures ONE.val() == 1 { Felt { inner: 1 } }
+#[verifier::external_body]
+pub exec const TWO: Felt ensures TWO.val() == 2 { Felt { inner: 2 } }
 
 #[verifier::external_body]
 pub broadcast proof fn felt_range(f: Felt) ensures 0 <= #[trigger] f.val() < P() {}
